@@ -241,6 +241,7 @@ class MemSock(object):
         self.rx = rx
         self.tx = tx
         self.closed = False
+        self.dead = False
         self.io_calls = 0
 
     # -- receive
@@ -259,6 +260,10 @@ class MemSock(object):
             self.rx.buf = bytearray()
             self.rx.eof = True
             if kind == "reset":
+                # a reset kills both directions of the connection
+                self.rx.reset = True
+                self.tx.eof = True
+                self.dead = True
                 raise socket.error(errno.ECONNRESET, "reset by peer")
             return b""
         if kind == "block":
@@ -296,13 +301,17 @@ class MemSock(object):
         alt = w.script.decide("sendall" if sendall else "send", self.who,
                               len(data), nalts) if nalts > 1 else 0
         kind = SEND_ALTS[alt]
-        if self.tx.eof and kind not in ("reset",):
+        if (self.tx.eof or self.dead) and kind not in ("reset",):
             kind = "epipe"
-        if kind == "epipe":
+        if kind in ("epipe", "reset"):
+            # the connection is gone in both directions: what was already
+            # received stays readable, then EOF; the peer sees EOF too
             w.activity += 1
-            raise socket.error(errno.EPIPE, "broken pipe")
-        if kind == "reset":
-            w.activity += 1
+            self.dead = True
+            self.tx.eof = True
+            self.rx.eof = True
+            if kind == "epipe":
+                raise socket.error(errno.EPIPE, "broken pipe")
             raise socket.error(errno.ECONNRESET, "reset by peer")
         if kind == "block":
             w.activity += 1
